@@ -4,20 +4,20 @@ import json
 P = {
  "C01": ("exploration", "seeded round trips (entries x writer knobs x benign I/O schedule) through simulated sink and source, judged against a sorted-vector model", "5/C01"),
  "C02": ("exploration", "per-file probe sets covering every key/gap/edge class x {GE,LE,EQ} on reset cursors vs model ceiling/floor/match", "5/C02"),
- "C03": ("exploration", "seeded operation histories over up to 3 cursors (clone interleaving, block-crossing macro steps) judged op by op against a reference model; cursor-state fingerprints measure reach", "5/C03"),
- "C04": ("exploration", "all 9 bound shapes, inverted/equal/empty ranges, both directions vs model filter", "5/C04"),
- "C05": ("exploration", "prefix queries incl. empty/0xFF/longer-than-any-key, both directions vs model starts_with", "5/C05"),
- "C06": ("exploration", "k-way merges (k 0..6, overlap patterns, add/push/extend, both output modes) vs model union + recorded merge calls", "5/C06"),
+ "C03": ("exploration", "seeded operation histories over up to 3 cursors (clone interleaving, clones sharing one file position, sources handed over at any position, block-crossing macro steps, one transient source fault after which the history continues) judged op by op against a reference model; cursor-state fingerprints measure reach", "5/C03"),
+ "C04": ("exploration", "all 9 bound shapes, inverted/equal/empty ranges, both directions, sequentially and as interleaved iterator pairs on reader clones, vs model filter", "5/C04"),
+ "C05": ("exploration", "prefix queries incl. empty/0xFF/longer-than-any-key/word-sized with carry, both directions, sequentially and as interleaved iterator pairs on reader clones, vs model starts_with", "5/C05"),
+ "C06": ("exploration", "k-way merges (k 0..70 and one reserved merge of 65537+ sources, overlap patterns, add/push/extend, both output modes, five merge functions incl. one returning a borrowed sub-slice) vs model union + recorded merge calls", "5/C06"),
  "C07": ("exploration", "same insert history under 3 spill/realloc/chunk-merge knob settings x consumption modes vs sort-and-merge model (spill schedule is the simulated dimension)", "5/C07"),
  "C08": ("exploration", "resource monitors at the chunk-creator seam (volume since last spill, live chunks, accounting) in the small-entry regime, plus hook-free real-scale runs with heap high-water mark", "5/C08"),
  "C09": ("exploration", "independent decoder (tiling, framing, offset tables, index linkage, trailer) + grenad 0.4.7 reader/writer both ways", "5/C09"),
  "C10": ("exploration", "constructed V1-trailer twins queried (scan, seeks, history, iterators) vs model and vs the V2 twin", "5/C10"),
  "C11": ("exploration", "differential execution of every scenario kind under Whole vs Chop{1} vs generated palette vs ChopIntr: identical bytes and transcripts", "5/C11"),
- "C12": ("fault_enumeration", "for each generated scenario, every component call k (read/write/flush/seek/create/merge on one shared clock) is failed once, plus double faults; the call in progress must return the matching Err, never panic, never Ok", "5/C12"),
+ "C12": ("fault_enumeration", "for each generated scenario, every component call k (read/write/flush/seek/create/merge on one shared clock) is failed once (one scenario in four a second time with UnexpectedEof everywhere), plus double faults and devices that stay broken; the call in progress must return the matching Err, never panic, never Ok", "5/C12"),
  "C13": ("fault_enumeration", "for each generated file every truncation length (crash point), every single-byte trailer corruption, literal writer crashes through the crash plan, and structured arbitrary strings, vs an independent validity predicate", "5/C13"),
  "C15": ("exploration", "independent decoder re-measures every data block and index block at depth>=2 against the cut rule", "5/C15"),
- "C16": ("exploration", "I/O trace at the source seam per public cursor call on files up to 2e5 entries: loads <= 2(levels+2), reads inside the sought block, open reads only the trailer", "5/C16"),
- "C17": ("exploration", "sorter and read-path scenarios under a checking allocator (layout-on-free, canary, double free, leak, armed null allocation) with overflow checks on; thorough adds AddressSanitizer and Miri shards", "5/C17"),
+ "C16": ("exploration", "I/O trace at the source seam per public cursor call on files up to 2e5 entries and on deep index trees (fan-out 2-4, 2-8 levels): loads <= 2(levels+2), reads inside the sought block, open reads only the trailer", "5/C16"),
+ "C17": ("exploration", "sorter, merger and read-path scenarios — including callers that continue after a failed component and components that panic — under a checking allocator (layout-on-free, canary, double free, leak, armed null allocation, junk-filled fresh memory, poisoned and quarantined freed memory, blocks aligned exactly as requested) with overflow checks and the standard library's debug preconditions on for grenad; thorough adds AddressSanitizer and Miri shards", "5/C17"),
  "C18": ("exploration", "insert sequences with injected order faults: panic at/after the first fault or every decoded block strictly ascending", "5/C18"),
 }
 NOTE = {
